@@ -1107,6 +1107,15 @@ func runGqueue(c *Ctx) {
 			var loaded *types.Var // local holding the latest top.Load()
 			loadIdx, lastCas := -1, -1
 			linkIdx, nextIdx := -1, -1 // Push: newNode.next = loaded; Pop: next := loaded.next
+			nonNilIdx := -1            // Pop: the latest branch that found the loaded top non-nil
+			derefChecked := func(i int, ev *core.Event) {
+				if fn != "Pop" {
+					return
+				}
+				a.note("R10", name+"/loaded-top-nil-tested-before-use", ev.Pos, !(nonNilIdx > loadIdx),
+					"the node loaded for this attempt is dereferenced only after it was found non-nil",
+					"Pop reads next from the top it (re)loaded for this attempt without testing that load against nil: when the stack was emptied between two attempts it dereferences nil instead of returning the zero value", p)
+			}
 			iter := 0
 			casOK := false
 			// where a local's value came from when it was assigned from an inlined helper's result
@@ -1134,6 +1143,12 @@ func runGqueue(c *Ctx) {
 				if ev.Kind == core.KHavoc && loaded != nil {
 					// the summary of the trips beyond the unroll bound: they did what the walked trips did
 					loadIdx, linkIdx, nextIdx = i, i+1, i+1
+					nonNilIdx = i + 1
+				}
+				if ev.Kind == core.KBranch && loaded != nil {
+					if is, isNil := nilTest(ev, loaded); is && !isNil {
+						nonNilIdx = i
+					}
 				}
 				if ev.Kind == core.KAssign && !ev.FieldInit && ev.RetEv != nil {
 					if v := identVar(ev.Lhs, ev.Frame); v != nil && !v.IsField() {
@@ -1158,6 +1173,7 @@ func runGqueue(c *Ctx) {
 					}
 					if sel, ok := unparen(ev.Rhs).(*ast.SelectorExpr); ok && sel.Sel.Name == "next" && loaded != nil && identVar(sel.X, ev.Frame) == loaded {
 						nextIdx = i
+						derefChecked(i, ev)
 					}
 				}
 				if isAtomicCall(ev, "CompareAndSwap") && len(ev.Call.Args) == 2 {
@@ -1168,6 +1184,7 @@ func runGqueue(c *Ctx) {
 					// … or the next pointer is read in the CAS argument itself: CompareAndSwap(oldTop, oldTop.next)
 					if sel, isSel := unparen(ev.Call.Args[1]).(*ast.SelectorExpr); isSel && sel.Sel.Name == "next" && loaded != nil && identVar(sel.X, ev.Frame) == loaded {
 						readNext = true
+						derefChecked(i, ev)
 					}
 					lastCas = i
 					a.note("R10", name+"/cas-on-fresh-load", ev.Pos, !ok, "the CAS compares against the value loaded in the same iteration", "the CAS compares against a value that was not loaded from top in this iteration (a stale top): concurrent pushes/pops between the load and the CAS are overwritten", p)
